@@ -11,6 +11,8 @@ STRUM_DERIVES = {"EnumString", "Display", "AsRefStr", "IntoStaticStr", "VariantN
                  "AsStaticStr", "EnumProperty", "EnumIter", "EnumCount", "VariantArray", "EnumIs", "EnumTryAs",
                  "FromRepr", "EnumTable", "EnumDiscriminants"}
 
+SCOPE_NAMES = {"LIMIT", "UNIT"}      # items of hp.rs a format string may name without the variant having such a field
+
 HP_EXTRA = r'''
 // ---- custom parse errors (parse_err_ty / parse_err_fn) with a call log ----
 #[derive(Debug, PartialEq, Eq, Clone)]
@@ -21,6 +23,8 @@ pub mod perr { pub fn b(s: &str) -> super::PErr { super::PERR_LOG.with(|l| l.bor
 // error functions whose NAMES are the ones a generated helper would plausibly use (an inner item of that name would capture the call)
 macro_rules! perr_named { ($($n:ident),*) => { $(pub fn $n(s: &str) -> PErr { PERR_LOG.with(|l| l.borrow_mut().push(format!("{}:{}", stringify!($n), hex(s.as_bytes())))); PErr(stringify!($n), s.to_string()) })* } }
 perr_named!(not_found, parse_error, from_str, try_from, err, error, default, variant_not_found, value, phf, fallback, parse, make_error);
+pub const LIMIT: u32 = 7;
+pub static UNIT: &str = "ms";
 pub fn take_log() -> String { PERR_LOG.with(|l| { let v: Vec<String> = l.borrow_mut().drain(..).collect(); v.join(",") }) }
 pub trait ErrObs { fn eobs(&self) -> String; const TY: &'static str; }
 impl ErrObs for strum::ParseError { fn eobs(&self) -> String { match self { strum::ParseError::VariantNotFound => "err:notfound".to_string() } } const TY: &'static str = "strum"; }
@@ -135,7 +139,7 @@ def render_strings(k, it: Item, meta, cfg, extra_derives=(), strum_path="strum")
     lines = ["pub fn oracle(e: &%s) -> Option<String> {" % ty, "    match e {"]
     for v in it.variants:
         lit = preferred_literal(it, v)
-        if lit is None or not v.fields or meta.get("no_oracle"):
+        if lit is None or meta.get("no_oracle") or (not v.fields and v.kind != "named"):
             continue
         used = placeholders(lit)
         if not used:
@@ -144,7 +148,9 @@ def render_strings(k, it: Item, meta, cfg, extra_derives=(), strum_path="strum")
         flit = rust_str((prefix or "").replace("{", "{{").replace("}", "}}") + lit)
         if v.kind == "named":
             names = [f.name for f in v.fields]
-            if not all(u in names for u in used):
+            # a placeholder that names NO field is captured from the scope by format_args! itself (a const, a static): the oracle is
+            # written in a scope that sees the same items (hp.rs: LIMIT, UNIT)
+            if not all(u in names or u in SCOPE_NAMES for u in used):
                 continue
             bound = [n for n in names if n in used]
             lines.append("        %s => Some(xs(&format!(%s, %s)))," % (
@@ -245,6 +251,16 @@ def render_strings(k, it: Item, meta, cfg, extra_derives=(), strum_path="strum")
         body.append('out.join("|")')
         arms["roundtrip"] = "\n".join(body)
     src.append(RR.query_fn(arms))
+    if getattr(it, "in_fn_body", False):
+        # the enum (and everything that talks about it) is declared INSIDE a function body, next to a local function with the name the
+        # enum gives as parse_err_fn; a module-level function of the SAME name exists too and must not be the one that is called
+        pefn = next((m.s for m in it.metas if m.kind == "pefn"), None)
+        pre, local = [], []
+        if pefn and "::" not in pefn:
+            pre.append('pub fn %s(s: &str) -> PErr { PErr("module-level-twin", s.to_string()) }' % pefn)
+            local.append("fn %s(s: &str) -> PErr { crate::hp::%s(s) }" % (pefn, pefn))
+        inner = "\n".join(src[:-1]) + "\n" + src[-1].replace("pub fn query(kind: &str, args: &[&str])", "fn query_inner(kind: &str, args: &[&str])", 1)
+        return "\n".join(pre) + "\npub fn query(kind: &str, args: &[&str]) -> String {\n" + "\n".join(local) + "\n" + inner + "\nquery_inner(kind, args)\n}"
     return "\n".join(src)
 
 
